@@ -70,6 +70,66 @@ def proj_resp_trace(op, line):
         return None
     return line
 
+def _skip_frame(b, i, depth=0):
+    """index after the RESP frame starting at b[i], or None if incomplete / not a frame"""
+    if i >= len(b) or depth > 200:
+        return None
+    t = b[i:i + 1]
+    j = b.find(b"\r\n", i)
+    if j < 0:
+        return None
+    if t in (b"+", b"-", b":"):
+        return j + 2
+    try:
+        n = int(b[i + 1:j])
+    except ValueError:
+        return None
+    if t == b"$":
+        if n < 0:
+            return j + 2
+        return j + 2 + n + 2 if j + 2 + n + 2 <= len(b) else None
+    if t == b"*":
+        k = j + 2
+        for _ in range(max(n, 0)):
+            k = _skip_frame(b, k, depth + 1)
+            if k is None:
+                return None
+        return k
+    return None
+
+def _canon_reply_stream(hx):
+    """a connection's reply bytes with the TEXT of top-level error replies blanked (`-ERR ...` -> `-*`):
+    no property fixes the wording of an error message, only that it is one well-formed error frame"""
+    if hx == "-" or len(hx) % 2:
+        return hx
+    try:
+        b = bytes.fromhex(hx)
+    except ValueError:
+        return hx
+    out, i = b"", 0
+    while i < len(b):
+        k = _skip_frame(b, i)
+        if k is None:
+            out += b[i:]
+            break
+        out += b"-*\r\n" if b[i:i + 1] == b"-" else b[i:k]
+        i = k
+    return out.hex()
+
+_ERRVAL = re.compile(r"\bE(?:(?:[0-9a-f]{2})+|-)")
+
+def proj_server(op, line):
+    """server-level lines: error reply TEXTS and the reason a connection was closed (told apart only by the
+    server's log wording) are not observables of any property - compare the kind of reply and open / eof / closed"""
+    if op.startswith(("rplan", "rfinish")):
+        return _ERRVAL.sub("E*", line)
+    if op.startswith("rconn"):
+        t = line.split(" ")
+        if len(t) == 2:
+            st = "closed" if t[1] in ("quit", "error", "overflow") else t[1]
+            return _canon_reply_stream(t[0]) + " " + st
+    return line
+
 def proj_full(op, line):
     return line
 
@@ -122,27 +182,27 @@ PROPS = {
                 # rejected requests in between; every decision against the exact-quotient token bucket
                 tags_by_mode={"hist": ["C01", "C02", "C03"]},
                 rule="hist: limiter-level histories (sibling limits, see C01/C02) against the exact-quotient bucket; rate: (count, period) boundary lattice, divisors and near-divisors of period*1e9, random points in and outside D; unit constructors at boundaries and random n in 1..2^32-1; non-trivial = point inside D"),
-    "C09": dict(runs=[("server", "actor", dict(quick=300, thorough=6000)), ("server", "wire", dict(quick=40, thorough=600)), ("server", "binary", dict(quick=60, thorough=120))], proj=proj_full, tags=["C09"],
+    "C09": dict(runs=[("server", "actor", dict(quick=300, thorough=6000)), ("server", "wire", dict(quick=40, thorough=600)), ("server", "binary", dict(quick=60, thorough=120))], proj=proj_server, tags=["C09"],
                 rule="actor: the real actor loop (unspawned, hook) and real RateLimiterHandle::throttle futures polled by a hand-rolled deterministic scheduler - exhaustive enumeration of schedules for small configurations, random schedules for larger; every trace replayed through the Lean LTS validator with the GCRA model as limiter; wire: one in-process server with HTTP + gRPC + RESP on loopback sockets sharing one actor, traces validated (loose enq order)"),
-    "C10": dict(modules=["C10", "C10Resp"], runs=[("server", "actor", dict(quick=300, thorough=6000)), ("server", "conn", dict(quick=60, thorough=500))], proj=proj_full, tags=["C10"],
+    "C10": dict(modules=["C10", "C10Resp"], runs=[("server", "actor", dict(quick=300, thorough=6000)), ("server", "conn", dict(quick=60, thorough=500))], proj=proj_server, tags=["C10"],
                 rule="actor: schedules with queue capacity down to 1 and cancellation of pending requests at every poll boundary (before enqueue / after enqueue / after the reply was produced); conn: pipelined RESP streams over real TCP cut into random chunkings, PING tags identify reply order"),
-    "C11": dict(runs=[("server", "actor", dict(quick=200, thorough=4000)), ("server", "wire", dict(quick=40, thorough=600)), ("server", "conn", dict(quick=60, thorough=500)), ("server", "binary", dict(quick=60, thorough=120))], proj=proj_full, tags=["C11"],
+    "C11": dict(runs=[("server", "actor", dict(quick=200, thorough=4000)), ("server", "wire", dict(quick=40, thorough=600)), ("server", "conn", dict(quick=60, thorough=500)), ("server", "binary", dict(quick=60, thorough=120))], proj=proj_server, tags=["C11"],
                 # a connection that stops answering well-formed commands after fragmented / malformed traffic is a C11 failure too
                 tags_by_mode={"conn": ["C10", "C13"], "resp": ["C13"]},
                 rule="hostile prefixes (i64 boundary lattice as requests on every transport, malformed frames, abrupt closes, oversize buffers) followed by a probe request on a new connection whose answer is compared with the model"),
-    "C12": dict(runs=[("server", "cmd", dict(quick=400, thorough=10000)), ("server", "wire", dict(quick=40, thorough=600)), ("server", "binary", dict(quick=60, thorough=120)), ("server", "actor", dict(quick=100, thorough=2000)), ("server", "conn", dict(quick=60, thorough=500))], proj=proj_full, tags=["C12"],
+    "C12": dict(runs=[("server", "cmd", dict(quick=400, thorough=10000)), ("server", "wire", dict(quick=40, thorough=600)), ("server", "binary", dict(quick=60, thorough=120)), ("server", "actor", dict(quick=100, thorough=2000)), ("server", "conn", dict(quick=60, thorough=500))], proj=proj_server, tags=["C12"],
                 # the actor traces carry the wire-level response (seconds); replaying the proc log on a fresh library limiter checks the conversion
                 tags_by_mode={"actor": ["C09"], "conn": ["C10", "C13"]},
                 rule="cmd: RESP commands (bulk vs :int arguments, any name case, arity 4..7, non-numeric / overflow arguments) through the real per-command handler with a real actor, the request the actor saw and the reply compared with the model's plan/finish; wire: each logical request routed to a random protocol/encoding over loopback sockets, wire answer compared field by field with what the actor log says the library decided"),
-    "C13": dict(runs=[("server", "resp", dict(quick=900, thorough=200000)), ("server", "conn", dict(quick=60, thorough=500))], proj=proj_full, tags=["C13"],
+    "C13": dict(runs=[("server", "resp", dict(quick=900, thorough=200000)), ("server", "conn", dict(quick=60, thorough=500))], proj=proj_server, tags=["C13"],
                 rule="resp: ALL byte strings up to length 5 (thorough 6) over the 13-symbol protocol alphabet + grammar-generated frames with mutations and hostile headers through the real RespParser vs the model; prefix-stability / bounds / depth-restored asserted on the real parser; conn: real TCP, same stream under several chunkings incl. 1-byte chunks"),
-    "C14": dict(runs=[("server", "resp", dict(quick=900, thorough=99999)), ("server", "cmd", dict(quick=400, thorough=10000)), ("server", "conn", dict(quick=60, thorough=500))], proj=proj_full, tags=["C14"],
+    "C14": dict(runs=[("server", "resp", dict(quick=900, thorough=99999)), ("server", "cmd", dict(quick=400, thorough=10000)), ("server", "conn", dict(quick=60, thorough=500))], proj=proj_server, tags=["C14"],
                 # the reply stream of a real connection must stay in step with the command stream
                 tags_by_mode={"conn": ["C10", "C13"], "resp": ["C13"]},
                 rule="resp: recursively generated values (all five kinds, CR/LF inside bulk strings, i64 extremes, depth up to 128) through the real serializer and parser; cmd: every reply of the real command handler serialised and parsed back as exactly one frame (command names with CR/LF, quotes, non-ASCII)"),
-    "C15": dict(runs=[("server", "metrics", dict(quick=300, thorough=6000)), ("server", "cmd", dict(quick=400, thorough=10000)), ("server", "wire", dict(quick=40, thorough=600)), ("server", "binary", dict(quick=60, thorough=120))], proj=proj_full, tags=["C15"],
+    "C15": dict(runs=[("server", "metrics", dict(quick=300, thorough=6000)), ("server", "cmd", dict(quick=400, thorough=10000)), ("server", "wire", dict(quick=40, thorough=600)), ("server", "binary", dict(quick=60, thorough=120))], proj=proj_server, tags=["C15"],
                 rule="metrics: random event lists vs the model's counters; 8 OS threads hammering one Metrics, identities at barriers; cmd/wire: which counter each real command moved, /metrics scraped and parsed at quiescent points and compared with what clients saw"),
-    "C16": dict(runs=[("server", "metrics", dict(quick=300, thorough=6000)), ("server", "wire", dict(quick=40, thorough=300)), ("server", "binary", dict(quick=60, thorough=120))], proj=proj_full, tags=["C16"],
+    "C16": dict(runs=[("server", "metrics", dict(quick=300, thorough=6000)), ("server", "wire", dict(quick=40, thorough=300)), ("server", "binary", dict(quick=60, thorough=120))], proj=proj_server, tags=["C16"],
                 # the tracker behind the real transports / the real binary (incl. debug logging): a tracker that stops recording is a C16 failure
                 tags_by_mode={"wire": ["C11", "C15"], "binary": ["C11", "C15"]},
                 rule="adversarial denial streams (unbounded distinct keys, late heavy hitters, ties, 255/256/257-byte keys, quotes/backslashes/controls/non-ASCII) on sizes 1..100 (+0, 20000 for the clamp); the table before/after EVERY update and every report checked by the model's relational validators (any tie-breaking accepted); escaped labels compared byte for byte; export parsed back line by line"),
